@@ -328,7 +328,7 @@ impl Prop for C18P {
         vec![Profile::Chk]
     }
     fn units(&self, tier: Tier) -> Vec<String> {
-        let n = tier.pick(5, 7);
+        let n = tier.pick(5, 12);
         let mut v = Vec::new();
         let mut sh = shapes(n);
         sh.push((1, n + 3));
@@ -375,7 +375,7 @@ impl Prop for C18P {
             .into()
     }
     fn bound(&self, tier: Tier) -> String {
-        format!("N = {}", tier.pick(5, 7))
+        format!("N = {}", tier.pick(5, 12))
     }
     fn assumptions(&self) -> Vec<String> {
         vec!["serde_json is the only format exercised; floating-point elements are not included (JSON cannot represent NaN/inf, so no round-trip is promised for them)".into()]
